@@ -84,7 +84,7 @@ vj_t *vj_new(json_type t)
 /* use-after-release / double-release checks on JSON values: enabled in the memory-safety
  * harnesses (-DVJ_CHECK_DEAD); verdict harnesses leave them out to keep the query small */
 #ifdef VJ_CHECK_DEAD
-#define VJ_ALIVE(j_) __CPROVER_assert(!(j_) || !VJ(j_)->dead, "model: use of a released JSON value")
+#define VJ_ALIVE(j_) __CPROVER_assert(!(j_) || !VJ(j_)->dead, "use of a released JSON value (use after free inside jansson)")
 #else
 #define VJ_ALIVE(j_) ((void)0)
 #endif
@@ -98,7 +98,7 @@ void json_delete(json_t *json)
 	if (!v)
 		return;
 #ifdef VJ_CHECK_DEAD
-	__CPROVER_assert(!v->dead, "model: JSON value released twice");
+	__CPROVER_assert(!v->dead, "JSON value released twice (double free inside jansson)");
 #endif
 	v->dead = 1;
 	released = 1;
@@ -118,6 +118,13 @@ void json_delete(json_t *json)
 		}
 	}
 	vj_live -= released;
+#ifdef VJ_FREE_ROOTS
+	/* cheap harnesses: the storage of the value released HERE (the root of this release, not its
+	 * members) really goes back to CBMC's heap, so that a second json_decref of the same pointer -
+	 * which in the real library reads and writes the refcount of freed memory - is a pointer-check
+	 * failure instead of going unnoticed (json_decref is an inline of jansson.h, it cannot assert) */
+	free(v);
+#endif
 }
 
 /* attach value as a member of o (bookkeeping shared by every mutator) */
